@@ -1,0 +1,21 @@
+//go:build verif
+
+package transaction
+
+import (
+	proposalstore "github.com/onosproject/onos-config/pkg/store/v2/proposal"
+	transactionstore "github.com/onosproject/onos-config/pkg/store/v2/transaction"
+)
+
+// NewReconcilerForVerif exposes the reconciler to the verification harness
+func NewReconcilerForVerif(transactions transactionstore.Store, proposals proposalstore.Store) *Reconciler {
+	return &Reconciler{transactions: transactions, proposals: proposals}
+}
+
+// NewWatcherForVerif exposes the watcher
+func NewWatcherForVerif(transactions transactionstore.Store) *Watcher { return &Watcher{transactions: transactions} }
+
+// NewProposalWatcherForVerif exposes the watcher
+func NewProposalWatcherForVerif(proposals proposalstore.Store) *ProposalWatcher {
+	return &ProposalWatcher{proposals: proposals}
+}
